@@ -735,6 +735,20 @@ class Shapes:
             return out
         if isinstance(e, ast.Lambda):
             return set()
+        if isinstance(e, ast.Yield):
+            # a generator function: what it yields is what its caller collects
+            if e.value is not None:
+                got = self._collect(self.tags(e.value), e, None, e.value)
+                if not got <= self.ret:
+                    self.ret |= got
+                    self._changed = True
+            return set()
+        if isinstance(e, ast.YieldFrom):
+            got = self._merge(self.tags(e.value), e, None)
+            if not got <= self.ret:
+                self.ret |= got
+                self._changed = True
+            return set()
         if isinstance(e, ast.Call):
             return self._call(e)
         if isinstance(e, ast.JoinedStr):
